@@ -1437,6 +1437,21 @@ class Interp:
                 out.append((q, ('raise', 'AssertionError')))
             return out
         if isinstance(st, ast.Delete):
+            # del X[:]  empties the list in place
+            if len(st.targets) == 1 and isinstance(st.targets[0], ast.Subscript) and isinstance(st.targets[0].slice, ast.Slice) \
+                    and st.targets[0].slice.upper is None and st.targets[0].slice.step is None and st.targets[0].slice.lower is None:
+                out = []
+                for q0, base in s.ev(st.targets[0].value, p):
+                    if base[0] != 'list':
+                        raise Unsupported('del statement at %s' % s.loc(st))
+                    h = q0.heap[base[1]]
+                    h['len'] = C(0)
+                    h['P0'] = add(q0.gh['Fg'], C(1))
+                    h['V1'] = True
+                    h['taint'] = False
+                    q0.events.append(('CLEAR', dict(list=base[1], where=s.loc(st))))
+                    out.append((q0, None))
+                return out
             # del X[k:]  keeps X[:k], in place (every alias of the list sees it)
             if len(st.targets) == 1 and isinstance(st.targets[0], ast.Subscript) and isinstance(st.targets[0].slice, ast.Slice) \
                     and st.targets[0].slice.upper is None and st.targets[0].slice.step is None and st.targets[0].slice.lower is not None:
